@@ -15,5 +15,9 @@ if not r.get("ok"):
     print(r); sys.exit(1)
 ok, out = qv.coq_make([])
 print(out[-3000:])
-sys.exit(0 if ok else 1)
+if not ok:
+    sys.exit(1)
+# extracted trace monitors (OCaml)
+qv.build_mondriver()
+sys.exit(0)
 PY
